@@ -275,3 +275,108 @@ func Do(hc *http1.HostClient, req *protocol.Request, timeout time.Duration) *Out
 		return &Outcome{Hang: true, Stack: allStacks()}
 	}
 }
+
+// SeqConn is a scripted keep-alive peer: response k is served (in fragments) only
+// after the client has written something since response k-1 was fully delivered.
+// After the last response Read returns EOF if CloseAfter, else blocks until Close.
+type SeqConn struct {
+	mu         sync.Mutex
+	cond       *sync.Cond
+	resps      [][][]byte // per exchange: fragments
+	idx        int        // current response
+	armed      bool       // a write happened since the previous response ended
+	In         []byte
+	Marks      []int // len(In) when response k started being served
+	closed     bool
+	CloseAfter bool
+}
+
+func NewSeqConn(resps [][][]byte, closeAfter bool) *SeqConn {
+	c := &SeqConn{CloseAfter: closeAfter}
+	for _, r := range resps {
+		c.resps = append(c.resps, append([][]byte(nil), r...))
+	}
+	c.cond = sync.NewCond(&c.mu)
+	return c
+}
+
+func (c *SeqConn) Read(p []byte) (int, error) {
+	c.mu.Lock()
+	defer c.mu.Unlock()
+	for {
+		if c.closed {
+			return 0, net.ErrClosed
+		}
+		if c.idx >= len(c.resps) {
+			if c.CloseAfter {
+				return 0, io.EOF
+			}
+			c.cond.Wait()
+			continue
+		}
+		if !c.armed {
+			c.cond.Wait()
+			continue
+		}
+		fr := c.resps[c.idx]
+		for len(fr) > 0 && len(fr[0]) == 0 {
+			fr = fr[1:]
+		}
+		if len(fr) == 0 {
+			c.idx++
+			c.armed = false
+			continue
+		}
+		if len(c.Marks) <= c.idx {
+			c.Marks = append(c.Marks, len(c.In))
+		}
+		n := copy(p, fr[0])
+		if n == len(fr[0]) {
+			fr = fr[1:]
+		} else {
+			fr[0] = fr[0][n:]
+		}
+		c.resps[c.idx] = fr
+		if len(fr) == 0 {
+			c.idx++
+			c.armed = false
+		}
+		return n, nil
+	}
+}
+
+func (c *SeqConn) Write(p []byte) (int, error) {
+	c.mu.Lock()
+	defer c.mu.Unlock()
+	if c.closed {
+		return 0, net.ErrClosed
+	}
+	c.In = append(c.In, p...)
+	c.armed = true
+	c.cond.Broadcast()
+	return len(p), nil
+}
+
+func (c *SeqConn) Close() error {
+	c.mu.Lock()
+	c.closed = true
+	c.cond.Broadcast()
+	c.mu.Unlock()
+	return nil
+}
+
+func (c *SeqConn) Written() []byte {
+	c.mu.Lock()
+	defer c.mu.Unlock()
+	return append([]byte(nil), c.In...)
+}
+func (c *SeqConn) IsClosed() bool {
+	c.mu.Lock()
+	defer c.mu.Unlock()
+	return c.closed
+}
+func (c *SeqConn) LocalAddr() net.Addr              { return &net.TCPAddr{IP: net.IPv4(127, 0, 0, 1), Port: 1} }
+func (c *SeqConn) RemoteAddr() net.Addr             { return &net.TCPAddr{IP: net.IPv4(127, 0, 0, 1), Port: 2} }
+func (c *SeqConn) SetDeadline(time.Time) error      { return nil }
+func (c *SeqConn) SetReadDeadline(time.Time) error  { return nil }
+func (c *SeqConn) SetWriteDeadline(time.Time) error { return nil }
